@@ -97,7 +97,7 @@ impl StampCellS {
     #[verifier::external_body]
     pub fn get(&self) -> (r: StabilisationNum) ensures r == self.v { unimplemented!() }
 }
-pub struct State { pub num_nodes_became_unnecessary: CounterCell, pub num_nodes_changed: CounterCell, pub num_nodes_invalidated: CounterCell,
+pub struct State { pub num_nodes_became_unnecessary: CounterCell, pub num_nodes_changed: CounterCell, pub num_nodes_invalidated: CounterCell, pub num_nodes_recomputed: CounterCell,
                    pub stabilisation_num: StampCellS, pub recompute_heap: HeapHandle, pub propagate_invalidity: InvalidityStack }
 impl State {
     #[verifier::external_body]
@@ -368,6 +368,37 @@ impl Node {
 //@ contract:
 //@|     requires did_change,
 //@|     ensures false, // [whichever-recompute-path-reports-a-change-the-node-is-queued-for-its-update-handlers]
+//@end
+
+//@extract fn Node::recompute_one@prefix
+//@ file: src/node.rs
+//@ impl: impl ErasedNode for Node
+//@ name: recompute_one
+//@ as: fn recompute_one(&mut self, state: &State) -> (r: Option<NodeRef>)
+//@ cells: recomputed_at
+//@ cfg: release
+//@ cut_before: match kind {
+//@ props: C06
+//@ contract:
+//@|     requires old(self).is_valid,
+//@|     ensures
+//@|         final(self).recomputed_at == state.stabilisation_num.v, // [a-node-that-runs-is-stamped-as-run-in-this-stabilisation-before-its-function-is-called]
+//@|         final(self).changed_at == old(self).changed_at && final(self).is_valid == old(self).is_valid, // [frame]
+//@end
+
+//@extract fn Node::recompute_one@prefix!invalid
+//@ file: src/node.rs
+//@ impl: impl ErasedNode for Node
+//@ name: recompute_one
+//@ as: fn recompute_one__an_invalid_node_is_never_run(&mut self, state: &State) -> (r: Option<NodeRef>)
+//@ cells: recomputed_at
+//@ cfg: release
+//@ cut_before: match kind {
+//@ panics: diverge
+//@ props: C06
+//@ contract:
+//@|     requires !old(self).is_valid,
+//@|     ensures false, // [recomputing-an-invalid-node-panics-before-any-user-function-runs]
 //@end
 
 //@extract fn Node::invalidate_node
